@@ -72,7 +72,21 @@ def run(ctx):
 # ---------------------------------------------------------------------------
 
 def _key_covers(rv):
-    """which call inputs does the key mention?"""
+    """which call inputs does the key mention?  A key written as a conditional
+    expression is judged variant by variant: the expression and its type must
+    be in every variant, the extra arguments in some variant (the other one is
+    the arm taken when there are none)."""
+    from ..summary import case_split
+    variants = case_split(rv) if isinstance(rv, tuple) else [rv]
+    if len(variants) > 1:
+        gots = [_key_covers_one(v) for v in variants]
+        every = set.intersection(*gots)
+        some = set.union(*gots)
+        return (every & {"type(expr)", "expr"}) | (some & {"args", "kwargs"})
+    return _key_covers_one(rv)
+
+
+def _key_covers_one(rv):
     got = set()
     if contains(rv, lambda t: t == ("typeof", NODE)):
         got.add("type(expr)")
@@ -419,6 +433,38 @@ def check_lookaside(ctx, model):
            "CachedMapper.__init__ does not create a fresh per-instance cache")
 
 
+def _key_is_injective(key, need_varargs):
+    """every variant of the key (conditional expressions resolved) is built
+    from the wrapper itself and -- in some variant -- the extra arguments, by
+    tuple construction only: such a key determines its inputs"""
+    from ..summary import case_split
+
+    def atoms(v):
+        if v == NODE:
+            return {"node"}
+        if v == ("varargs",) or v == ("star", ("varargs",)):
+            return {"args"}
+        if isinstance(v, tuple) and v and v[0] == "lit" and v[1] == "tuple":
+            out = set()
+            for x in v[2]:
+                a = atoms(x)
+                if a is None:
+                    return None
+                out |= a
+            return out
+        if isinstance(v, tuple) and v and v[0] == "star":
+            return atoms(v[1])
+        if isinstance(v, tuple) and v and v[0] == "binop" and v[1] == "Add":
+            a, b = atoms(v[2]), atoms(v[3])
+            return None if a is None or b is None else a | b
+        return None
+    variants = case_split(key) if isinstance(key, tuple) else [key]
+    got = [atoms(v) for v in variants]
+    if any(a is None or "node" not in a for a in got):
+        return False
+    return not need_varargs or any("args" in a for a in got)
+
+
 def check_cse_mixin(ctx, model):
     mx = model.cls(f"{M}:CSECachingMapperMixin")
     mem = mx.members.get("map_common_subexpression")
@@ -457,9 +503,10 @@ def check_cse_mixin(ctx, model):
         else:
             key = stores[0].args[0] if stores else None
         key = norm_key(key)
-        ctx.ob("T/cse-mixin/key", key == want_key, loc,
-               "key = (expr, *args)" if key == want_key else
-               f"the CSE cache key is not (expr, *args)")
+        key_ok = key == want_key or _key_is_injective(key, bool(sig.vararg))
+        ctx.ob("T/cse-mixin/key", key_ok, loc,
+               "the key determines (expr, *args)" if key_ok else
+               f"the CSE cache key does not determine (expr, *args)")
         if not missed:
             n_hit += 1
             ok = ps.retval[0] == "index" and not stores and not computes
